@@ -144,6 +144,31 @@ theorem goUpper_caseEq : ∀ (n : Nat) (s s' : Bytes), s.length ≤ n → CaseEq
             rw [goUpper_cons_generic a t p1 p2, goUpper_cons_generic b t' q1 q2, upper_of_lower_eq a b hab,
               ih t t' (by simp at hl; omega) htt]
 
+theorem goUpper_length_le : ∀ (n : Nat) (s : Bytes), s.length ≤ n → (goUpper s).length ≤ s.length := by
+  intro n
+  induction n with
+  | zero => intro s h; have : s = [] := List.eq_nil_of_length_eq_zero (by omega); subst this; simp [goUpper]
+  | succ n ih =>
+    intro s h
+    match s with
+    | [] => simp [goUpper]
+    | [c] =>
+      by_cases h1 : c = 0xC4 <;> by_cases h2 : c = 0xC5 <;> simp [goUpper]
+    | c :: d :: t =>
+      by_cases p1 : c = 0xC4 ∧ d = 0xB1
+      · obtain ⟨rfl, rfl⟩ := p1
+        simp only [goUpper, List.length_cons]
+        have := ih t (by simp at h; omega); omega
+      · by_cases p2 : c = 0xC5 ∧ d = 0xBF
+        · obtain ⟨rfl, rfl⟩ := p2
+          simp only [goUpper, List.length_cons]
+          have := ih t (by simp at h; omega); omega
+        · have := goUpper_cons_generic c (d :: t) (by rintro ⟨rfl, u, hu⟩; cases hu; exact p1 ⟨rfl, rfl⟩)
+            (by rintro ⟨rfl, u, hu⟩; cases hu; exact p2 ⟨rfl, rfl⟩)
+          rw [this]
+          have := ih (d :: t) (by simp at h ⊢; omega)
+          simp at this ⊢; omega
+
 theorem goUpper_case_invariant (s s' : Bytes) (h : CaseEq s s') : goUpper s = goUpper s' :=
   goUpper_caseEq s.length s s' (Nat.le_refl _) h
 
